@@ -362,10 +362,9 @@ impl Polyhedron {
 ///
 /// If you want to use a Viewer use QuadraticBezier3D struct instead.
 pub fn quadratic_bezier(start: Pt3, control: Pt3, end: Pt3, segments: u64) -> Pt3s {
-    let delta = 1.0 / segments as f64;
     let mut points = Pt3s::new();
     for i in 0..(segments + 1) {
-        let t = i as f64 * delta;
+        let t = i as f64 / segments as f64;
         points.push(start * (1.0 - t) * (1.0 - t) + control * t * (1.0 - t) * 2.0 + end * t * t);
     }
     points
@@ -375,10 +374,9 @@ pub fn quadratic_bezier(start: Pt3, control: Pt3, end: Pt3, segments: u64) -> Pt
 ///
 /// If you want to use a Viewer use CubicBezier3D struct instead.
 pub fn cubic_bezier(start: Pt3, control1: Pt3, control2: Pt3, end: Pt3, segments: u64) -> Pt3s {
-    let delta = 1.0 / segments as f64;
     let mut points = Pt3s::new();
     for i in 0..(segments + 1) {
-        let t = i as f64 * delta;
+        let t = i as f64 / segments as f64;
         points.push(
             start * (1.0 - t) * (1.0 - t) * (1.0 - t)
                 + control1 * t * (1.0 - t) * (1.0 - t) * 3.0
